@@ -261,6 +261,7 @@ class Applied:
         self.reloc = None           # f(ins) -> real address override for instruction ins (the @org forms)
         self.peek_from = None       # first address whose snapshot contents may legitimately differ when relocated
         self.anchor_label = False   # the directive labels the anchor
+        self.anchor_unlabel = False # the directive removes the label of the anchor
         self.displaces = False      # an insertion in front of the anchor takes over the entry label created by -c
         self.passive = False        # image must equal that of the file without the directive
         self.data = False           # @defb/@defs/@defw: #PEEK is compared with skool2bin -d
@@ -288,8 +289,23 @@ def _clone(ins, text=None, lay=None):
     return i
 
 
-def sub_form(form, kind, lay, p):
-    """One @*sub/@*fix directive form applied to instruction p.  Raises NotApplicable."""
+# Label syntax of a @*sub/@*fix directive value ([>][|][+][/][LABEL:][INSTRUCTION]; asm.rst): a label, a label that
+# also marks an entry point, an empty label (removes the label of the instruction) and a bare entry point marker
+LSYN = ('LAB8:', '*LAB8:', ':', '*:')
+# The directives of each form that can carry the label syntax (those that do not have a label already), by position,
+# with the instruction the directive stands for: 'a' = the anchor (replaced/overwritten in place), 'b' = an instruction
+# inserted before it, 'f' = an instruction that follows it (inserted, or the next one of a '|' chain)
+LABEL_ROLES = {
+    'rep_same': 'a', 'rep_grow': 'a', 'rep_shrink': 'a', 'comment_only': 'a', 'final': 'a', 'before1': 'b', 'before2': 'b', 'after1': 'f',
+    'after2': 'ff', 'rep_after': 'af', 'over_same': 'a', 'over_two': 'a', 'before_over_two': 'ba', 'over_split': 'af', 'over_swap': 'af',
+    'over_grow': 'a',
+}
+_DIRECTIVE = re.compile(r'(@\w+=)([>/|+]*)(.*)$')
+
+
+def sub_form(form, kind, lay, p, lab=None):
+    """One @*sub/@*fix directive form applied to instruction p; lab = (label syntax, position of the directive that
+    carries it) or None.  Raises NotApplicable."""
     ins = lay.ins
     anc = ins[p]
     nxt = ins[p + 1] if p + 1 < len(ins) else None
@@ -478,6 +494,18 @@ def sub_form(form, kind, lay, p):
         raise KeyError(form)
     d.pre = [lay.resolve(x) for x in d.pre]
     d.after_anchor = [lay.resolve(x) if x.startswith((' ', 'c')) else x for x in d.after_anchor]
+    if lab is not None:
+        lsyn, k = lab
+        roles = LABEL_ROLES.get(form, '')
+        if k >= len(roles):
+            raise NotApplicable
+        head, flags, rest = _DIRECTIVE.match(d.pre[k]).groups()
+        d.pre[k] = head + flags + lsyn + rest
+        if roles[k] == 'a':
+            # the label of the anchor is replaced: by a name, or by nothing (then it counts as unlabelled, also for
+            # '*:', whose automatic label exists only with -c)
+            d.anchor_label = lsyn in ('LAB8:', '*LAB8:')
+            d.anchor_unlabel = not d.anchor_label
     return d
 
 
@@ -800,7 +828,8 @@ def read_peeks(text):
 # --------------------------------------------------------------------------- one case
 class Case:
     """(file, directive, anchor, label option) - everything that does not depend on mode/options."""
-    def __init__(self, base, entries, dname=None, kind=None, p=0, labels_all=False, gap_entry=None, shift=False, style=None):
+    def __init__(self, base, entries, dname=None, kind=None, p=0, labels_all=False, gap_entry=None, shift=False, style=None, lab=None):
+        self.lab = tuple(lab) if lab else None     # (label syntax, directive position) on a @*sub/@*fix form (LSYN, LABEL_ROLES)
         self.base, self.entries, self.dname, self.kind, self.p, self.labels_all, self.gap_entry = base, entries, dname, kind, p, labels_all, gap_entry
         self.shift = shift      # the whole file is assembled GAP bytes above its skool addresses (@org=base+GAP)
         self.style = style      # source style (STYLES)
@@ -809,17 +838,17 @@ class Case:
             raise NotApplicable
         self.d = None
         if dname is not None:
-            self.d = sub_form(dname, kind, self.lay, p) if kind else other_form(dname, self.lay, p)
+            self.d = sub_form(dname, kind, self.lay, p, self.lab) if kind else other_form(dname, self.lay, p)
             self.d.anchor = p
         self.skool = skool_text(self.lay, self.d, p, labels_all, shift=shift)
         self.baseline = skool_text(self.lay, self.d, p, labels_all, False, shift) if self.d is not None and self.d.passive else None
 
     def ident(self):
-        return '{}/{}/{}{}@{}{}'.format(self.base, '|'.join(';'.join(e) for e in self.entries), (self.kind + ':') if self.kind else '', self.dname or 'none',
+        return '{}/{}/{}{}@{}{}'.format(self.base, '|'.join(';'.join(e) for e in self.entries), (self.kind + ':') if self.kind else '', (self.dname or 'none') + ('[{}#{}]'.format(*self.lab) if self.lab else ''),
                                         self.p, ('/labels' if self.labels_all else '') + ('/shift' if self.shift else '') + ('/' + self.style if self.style else ''))
 
     def spec(self):
-        return dict(base=self.base, entries=self.entries, directive=self.dname, kind=self.kind, anchor=self.p, labels_all=self.labels_all, gap_entry=self.gap_entry, shift=self.shift, style=self.style)
+        return dict(base=self.base, entries=self.entries, directive=self.dname, kind=self.kind, anchor=self.p, labels_all=self.labels_all, gap_entry=self.gap_entry, shift=self.shift, style=self.style, lab=list(self.lab) if self.lab else None)
 
     def classify(self, mode, create_labels):
         """Domain of the case in `mode`: returns dict(relocated, in_domain, peek_from, skip_asm, active)."""
@@ -856,6 +885,8 @@ class Case:
                     labelled.add(i.saddr)
                 if active and d.anchor_label and i.idx == d.anchor:
                     labelled.add(i.saddr)
+                if active and d.anchor_unlabel and i.idx == d.anchor:
+                    labelled.discard(i.saddr)
             for i in final:
                 for num in referenced_numbers(i.text):
                     if num in real and real[num] != num and num not in labelled:
@@ -1140,6 +1171,27 @@ def groups(tier, seed):
                     for p in range(n):
                         for la, c in lab_opts:
                             yield ('B', dict(base=base, entries=ent, dname=form, kind=kind, p=p, labels_all=la), MODES, [dict(base='', case='', c=c)], False)
+    # ---- part Y: the label syntax of the directive value on every directive of every form that can carry it
+    for form in SUB_FORMS:
+        for k in range(len(LABEL_ROLES.get(form, ''))):
+            for lsyn in LSYN:
+                for kind in KINDS:
+                    for p in range(3):
+                        for la, c in lab_opts:
+                            yield ('Y', dict(base=base, entries=DEFAULT_HOST, dname=form, kind=kind, p=p, labels_all=la, lab=[lsyn, k]),
+                                   MODES if tier == 'thorough' else [(2, 2), (3, 3)], [dict(base='', case='', c=c)], False)
+    if tier == 'thorough':
+        for ent in hosts(tier):
+            if ent == DEFAULT_HOST:
+                continue
+            n = sum(len(e) for e in ent)
+            for form in SUB_FORMS:
+                for k in range(len(LABEL_ROLES.get(form, ''))):
+                    for lsyn in LSYN:
+                        for p in range(n):
+                            for la, c in lab_opts:
+                                yield ('Y', dict(base=base, entries=ent, dname=form, kind='rsub', p=p, labels_all=la, lab=[lsyn, k]), [(2, 0), (3, 1)],
+                                       [dict(base='', case='', c=c)], False)
     # ---- part S: the same forms in a file assembled GAP bytes above its skool addresses (@org=base+GAP): the
     # real address differs from the skool address wherever a directive is applied
     for form in SUB_FORMS:
@@ -1181,7 +1233,7 @@ def _tags(part, case, mode, opts, clause, cls, html, detail='', peek_bad=()):
         hi = ins[case.p + 2].saddr if case.p + 2 < len(ins) else case.lay.end
         where = 'anchor_span' if all(ins[case.p].saddr <= a < hi for a in peek_bad) else 'outside'
     return {'where': where,'error': m.group(1).strip() if clause == 'tool' and m else '','part': part, 'clause': clause, 'form': case.dname or 'none', 'kind': case.kind or '', 'asm': mode[0], 'fix': mode[1],
-            'style': case.style or '', 'base': opts.get('base', ''), 'case': opts.get('case', ''), 'c': opts.get('c', 0), 'labels_all': int(case.labels_all),
+            'style': case.style or '', 'lsyn': case.lab[0] if case.lab else '', 'lpos': case.lab[1] if case.lab else '', 'base': opts.get('base', ''), 'case': opts.get('case', ''), 'c': opts.get('c', 0), 'labels_all': int(case.labels_all),
             'relocated': int(cls['relocated']), 'active': int(cls['active']), 'anchor': case.p, 'html': int(html)}
 
 
@@ -1205,6 +1257,8 @@ def _shard(shard, nshards, tier, seed):
                     stats.counters['form_' + case.dname] += 1
                     if cls['active']:
                         stats.counters['in_force_' + (case.kind or case.dname)] += 1
+                        if case.lab:
+                            stats.counters['label_syntax_in_force_' + case.lab[0]] += 1
                 if cls['relocated']:
                     stats.counters['case_b_relocated'] += 1
                     if cls['in_domain']:
@@ -1237,7 +1291,10 @@ def run(tier, seed):
         'P (other directives): {np} forms (@org bare/=same/=hex/=shifted/after a gap, @equ x4, @label x4, @keep x2, @nowarn x2, @defb/@defs/@defw x5, @bytes, @if x4, @isub+@ofix on one '
         'instruction) x every anchor x {hp}: mode-independent forms x modes {mp} x all 18 options, mode-dependent forms x all 9 modes x {{no labels, -c, @label on every instruction}}. '
         'B (@*sub/@*fix): {nf} forms (replace same/longer/shorter, LABEL:/comment/final-comment variants, > x2, + x2, replace+append, | x6, ! x2, +begin/-begin..+else/-begin..-end blocks) x '
-        '{hb} x every anchor x {{no labels, -c, @label on every instruction}}. S: the same forms, {ks}, in a file assembled 16 bytes above its skool addresses (@org=base+16), all labelled. '
+        '{hb} x every anchor x {{no labels, -c, @label on every instruction}}. '
+        'Y (label syntax [>][|][+][/][LABEL:]INSTRUCTION): every form x every one of its directives that has no label yet ({ny} form/directive positions: on the replaced or overwritten '
+        'anchor, on an instruction inserted before or after it, on a later instruction of a | chain) x {{LAB8:, *LAB8:, : (empty label), *:}} x {hy} x every anchor x '
+        '{{no labels, -c, @label on every instruction}}. S: the same forms, {ks}, in a file assembled 16 bytes above its skool addresses (@org=base+16), all labelled. '
         'O: every form x {ko} x the 8 non-default base/case settings (x -c). H: skool2html #PEEK against plain skool2bin for {hh}. '
         'Data statements (DEFB/DEFM/DEFS/DEFW) in the ASM text are assembled by the reference evaluator mc/refs/defx.py, instructions by the repository Assembler. '
         'evaluations = (file, mode, options) triples; transitions = tool executions; states = distinct skool2bin images; non-trivial = a directive, an address operand or a non-default option present'
@@ -1249,6 +1306,8 @@ def run(tier, seed):
         mp='(1,0),(3,3)' if T else '(1,0)', nf=len(SUB_FORMS),
         hb='6 kinds x 9 modes x every host (4 anchor letters x 2 third instructions x 4 splits + 20 shorter hosts)' if T
         else '6 kinds x 9 modes on the default host, and @rsub in modes (2,0),(3,1) on the 11 other three-instruction hosts (4 anchor letters x splits (3),(1,2),(2,1)) and 12 shorter hosts',
+        ny=sum(len(v) for v in LABEL_ROLES.values()),
+        hy='6 kinds x 9 modes on the default host, and @rsub in modes (2,0),(3,1) on every other host' if T else '6 kinds x modes (2,2),(3,3) on the default host',
         ks='6 kinds x 9 modes' if T else '@bfix in modes (1,1),(1,2)', ko='6 kinds x 9 modes' if T else '@ssub/@bfix in mode (2,2)',
         hh='every letter in both source styles, every pair of letters in two entries, every B form x kind x anchor, every P form on 7 hosts' if T
         else 'every letter in both source styles, the pairs of the first 12 letters in two entries, every B form x kind x anchor, every P form on 7 hosts')
@@ -1274,8 +1333,8 @@ def run(tier, seed):
             'chained @*sub/@*fix directives use the | marker on all directives of a chain or on none, as in the documented examples (a > line may precede)',
             'operands of generated instructions never name a label textually; labels in the ASM text come from -c, @label, LABEL: and @equ only',
         ],
-        required_guards=['part_A', 'part_L', 'asm_defx', 'part_P', 'part_B', 'part_S', 'part_O', 'part_H', 'case_a', 'case_b_in_domain', 'out_of_domain_unlabelled_relocation', 'asm_org', 'asm_equ',
-                         'asm_label', 'asm_label_refs', 'asm_gap', 'html_runs', 'peek_addresses_compared'] + ['in_force_' + k for k in KINDS] + ['form_' + f for f in SUB_FORMS + OTHER_FORMS],
+        required_guards=['part_A', 'part_L', 'asm_defx', 'part_P', 'part_B', 'part_Y', 'part_S', 'part_O', 'part_H', 'case_a', 'case_b_in_domain', 'out_of_domain_unlabelled_relocation', 'asm_org', 'asm_equ',
+                         'asm_label', 'asm_label_refs', 'asm_gap', 'html_runs', 'peek_addresses_compared'] + ['in_force_' + k for k in KINDS] + ['label_syntax_in_force_' + x for x in LSYN] + ['form_' + f for f in SUB_FORMS + OTHER_FORMS],
         extra={'out_of_domain_unlabelled_relocation': stats.counters.get('out_of_domain_unlabelled_relocation', 0),
                'form_not_applicable': stats.counters.get('form_not_applicable', 0)},
     )
@@ -1284,6 +1343,6 @@ def run(tier, seed):
 
 def replay(case):
     spec = case['spec']
-    c = Case(spec['base'], spec['entries'], spec.get('directive'), spec.get('kind'), spec.get('anchor', 0), spec.get('labels_all', False), spec.get('gap_entry'), spec.get('shift', False), spec.get('style'))
+    c = Case(spec['base'], spec['entries'], spec.get('directive'), spec.get('kind'), spec.get('anchor', 0), spec.get('labels_all', False), spec.get('gap_entry'), spec.get('shift', False), spec.get('style'), spec.get('lab'))
     res, _ = Runner().check(c, tuple(case['mode']), case['opts'], case.get('html', False))
     return ['{}: {}'.format(cl, d) for cl, d in res]
